@@ -156,6 +156,7 @@ type AzObj struct {
 	Evaluated bool
 	Rounds    int
 	Unknown   bool // content loaded from bytes that are not a known snapshot
+	Scratch   func() biscuit.Authorizer // another authorizer for the same token and keys (nil if none)
 }
 
 // ---- records
@@ -407,6 +408,24 @@ func (m *VM) RefKey(ks *KeySel, id *uint32) ed25519.PublicKey {
 		}
 	}
 	return nil
+}
+
+// addViaLoad: the content reaches authorizer a as a stored policy file. A scratch authorizer for the
+// same token is given the content and serializes it (SerializePolicies); a loads the bytes
+// (LoadPolicies). Returns false when nothing was loaded and the caller should add the content directly.
+func (m *VM) addViaLoad(scratch, a biscuit.Authorizer, c *ref.Authz, perm []int, permChecks bool) bool {
+	addAuthz(scratch, c, perm, permChecks)
+	data, err := scratch.SerializePolicies()
+	if err != nil {
+		m.Probe("via_load_serialize_failed")
+		return false
+	}
+	if err := a.LoadPolicies(data); err != nil {
+		m.Violate("C18", "fresh-snapshot-does-not-load", "LoadPolicies rejects what SerializePolicies just produced", err.Error())
+		return true
+	}
+	m.Probe("content_via_load_policies")
+	return true
 }
 
 func addAuthz(a biscuit.Authorizer, c *ref.Authz, perm []int, permChecks bool) {
